@@ -267,7 +267,10 @@ func scenarios() []*scenario {
 		})
 	}
 	// Redistribution: refresh (same structure) and change to unanimity over {1,2,3} driven by {1,2}
-	for _, mode := range []string{"refresh", "to-unanimity", "refresh-anchored"} {
+	// "handover": the 2-of-3 key of {1,2,3} moves to a disjoint set {4,5,6} (2-of-3) without trusted
+	// anchors - every recipient of the new shares is a next-only party, which has nothing but the
+	// previous holders' claims to compare the new sharing with.
+	for _, mode := range []string{"refresh", "to-unanimity", "refresh-anchored", "handover"} {
 		mode := mode
 		prev := []proto.ID{1, 2, 3}
 		if mode == "to-unanimity" {
@@ -278,6 +281,11 @@ func scenarios() []*scenario {
 			anchor = 1
 		}
 		all := []proto.ID{1, 2, 3}
+		raw := raw
+		if mode == "handover" {
+			all = []proto.ID{1, 2, 3, 4, 5, 6}
+			raw = []uint64{4, 5, 6}
+		}
 		out = append(out, &scenario{
 			name: "redistribute-" + mode, parties: all, anchor: anchor, idle: 8 * time.Second,
 			runners: func(ctxSeed uint64, seeds map[proto.ID]uint64) (map[proto.ID]network.Runner[any], error) {
@@ -313,7 +321,19 @@ func scenarios() []*scenario {
 				}
 				return rs, nil
 			},
-			check: func(outs map[proto.ID]any) error { return checkShards(k, outs, pkInfo.PK) },
+			check: func(outs map[proto.ID]any) error {
+				if mode == "handover" {
+					// previous holders that are not next holders return no shard
+					next := map[proto.ID]any{}
+					for _, id := range proto.ToIDs(raw) {
+						if o, ok := outs[id]; ok {
+							next[id] = o
+						}
+					}
+					outs = next
+				}
+				return checkShards(k, outs, pkInfo.PK)
+			},
 		})
 	}
 	// Lindell17 signing on dealt shards (1024-bit test keys)
